@@ -150,14 +150,14 @@ Print Assumptions C10_history_checker_sound.
     end; no vote survives a period end. *)
 Theorem C10_msg_history_holds :
   forall p xs, Forall (fun ex => wf_env (fst ex)) xs -> forall s, canonical_store s ->
-  P_mhist p (ms_rates s) (map to_avote (ms_votes s)) (map to_prevote (ms_prevotes s)) (mhist_obs true true p s xs).
+  P_mhist p (ms_rates s) (map to_avote (ms_votes s)) (map to_prevote (ms_prevotes s)) (mhist_obs true true true p s xs).
 Proof. exact mhist_holds. Qed.
 Print Assumptions C10_msg_history_holds.
 
 (** The identity map "message string -> validator" is applied before anything is stored: the Voter string in the
     store is the canonical spelling of the key, hence the tally's lookup by stored string is a lookup by identity. *)
 Theorem C10_stored_voter_is_canonical :
-  forall p wl h ms s s1 acc, deliver_all true p wl h s ms = (s1, acc) -> canonical_store s ->
+  forall p wl h ms s s1 acc, deliver_all true true p wl h s ms = (s1, acc) -> canonical_store s ->
   canonical_store s1 /\ votes_seen (ms_votes s1) = map to_avote (ms_votes s1).
 Proof. exact stored_voter_is_canonical. Qed.
 Print Assumptions C10_stored_voter_is_canonical.
@@ -165,8 +165,8 @@ Print Assumptions C10_stored_voter_is_canonical.
 (** Which messages are accepted and which rates are published, at every block, do not depend on how the validator /
     feeder / operator / delegate fields of the messages are spelled. *)
 Theorem C10_rate_independent_of_spelling :
-  forall fx p xs1 xs2, Forall2 mstep_equiv xs1 xs2 ->
-  forall s, mhist_events true fx p s xs1 = mhist_events true fx p s xs2.
+  forall dc fx p xs1 xs2, Forall2 mstep_equiv xs1 xs2 ->
+  forall s, mhist_events true dc fx p s xs1 = mhist_events true dc fx p s xs2.
 Proof. exact spelling_irrelevant. Qed.
 Print Assumptions C10_rate_independent_of_spelling.
 
@@ -181,10 +181,41 @@ Print Assumptions C10_msg_checker_sound.
 Theorem C10_raw_voter_string_refuted :
   exists p s xs1 xs2,
     canonical_store s /\ Forall (fun ex => wf_env (fst ex)) xs1 /\ Forall2 mstep_equiv xs1 xs2 /\
-    mhist_events false true p s xs1 <> mhist_events false true p s xs2 /\
-    ~ P_mhist p (ms_rates s) (map to_avote (ms_votes s)) (map to_prevote (ms_prevotes s)) (mhist_obs false true p s xs1).
+    mhist_events false true true p s xs1 <> mhist_events false true true p s xs2 /\
+    ~ P_mhist p (ms_rates s) (map to_avote (ms_votes s)) (map to_prevote (ms_prevotes s)) (mhist_obs false true true p s xs1).
 Proof. exact raw_voter_string_refuted. Qed.
 Print Assumptions C10_raw_voter_string_refuted.
+
+(** ONE VOTE PER (VALIDATOR, PAIR).  The specification keys the votes of a period by (validator identity, pair)
+    ([Spec.track] / [dedup_pairs]): each validator's power counts once per pair and the voters of a pair are distinct
+    validators.  With the parser's all-pairs duplicate test (fact [cc_dup_check = DupSeenSet]) — whatever vote strings are
+    sent: a pair repeated adjacently, non-adjacently, three times, with equal or different rates — the tally at the end of a
+    block never sees two votes of one validator for one pair, and the store invariants hold again after every block. *)
+Theorem C10_one_vote_per_validator_and_pair :
+  forall p wl h ms s s1 acc e rs pr,
+  deliver_all true true p wl h s ms = (s1, acc) -> canonical_store s -> well_keyed s ->
+  NoDup (map pv_voter (pair_votes (env_state e (votes_seen (ms_votes s1)) rs) pr)).
+Proof. exact one_vote_per_validator_and_pair. Qed.
+Print Assumptions C10_one_vote_per_validator_and_pair.
+
+Theorem C10_msg_store_invariants :
+  forall fx p e s x acc s' evs,
+  mhist_step true true fx p e s x = (acc, Some (s', evs)) -> canonical_store s -> well_keyed s ->
+  canonical_store s' /\ well_keyed s'.
+Proof. exact mhist_step_invariants. Qed.
+Print Assumptions C10_msg_store_invariants.
+
+(** A parser that only compares each pair with the PRECEDING one ([dc = false]) violates the property: validators 0-3 of
+    power 10 vote 100, 200, 300, 400; validator 4 names the pair twice at rate 1 with another pair in between; the message is
+    accepted, validator 4 is tallied twice and 100 is published — the weighted median of the five validators' votes is 200,
+    which is what the current parser (message refused) publishes. *)
+Theorem C10_adjacent_only_duplicate_check_refuted :
+  exists p s xs,
+    canonical_store s /\ well_keyed s /\ Forall (fun ex => wf_env (fst ex)) xs /\
+    mhist_events true false true p s xs <> mhist_events true true true p s xs /\
+    ~ P_mhist p (ms_rates s) (map to_avote (ms_votes s)) (map to_prevote (ms_prevotes s)) (mhist_obs true false true p s xs).
+Proof. exact adjacent_only_duplicate_check_refuted. Qed.
+Print Assumptions C10_adjacent_only_duplicate_check_refuted.
 
 (** Inside the domain the update never panics. *)
 Theorem C10_no_panic_in_domain :
